@@ -1,5 +1,5 @@
 PROP = {
-    "thm": ["Umya.Thm.C06", "Umya.Thm.C06Codec", "Umya.Thm.C06Comment", "Umya.Thm.C06Names"],
+    "thm": ["Umya.Thm.C06", "Umya.Thm.C06Codec", "Umya.Thm.C06Comment", "Umya.Thm.C06Names", "Umya.Thm.C06NamesHist"],
     "harness": "c06",
     "level": "proof",
     "stateful": True,
@@ -43,7 +43,10 @@ PROP = {
                   "same (name, localSheetId, address) (C06_defined_names_rehome_roundtrip); Stable survives remove_sheet(i) for every i, which keeps every other sheet's names in order (C06_defined_names_remove_sheet_stable / _keeps), so the round trip holds after one "
                   "or any number of removals (C06_defined_names_after_remove_sheet / _after_removals); remove_sheet before the fix is refuted (wrong sheet: _unfixed_fails; reload panic: _unfixed_panics). What is NOT preserved is stated as theorems: an unscoped name stored "
                   "away from the sheet of its first area, a workbook-level name whose first area names a sheet and a name stored on one sheet with another sheet's id move on reload (C06_defined_names_unstable_moves); a sheet put in front through "
-                  "get_sheet_collection_mut() is not followed by the ids (C06_defined_names_insert_front_fails). Tie on every run (`c06 nm`): the real <definedName> elements in order and the reloaded homes of 6 witnesses + 300 generated books after histories of remove_sheet / appended / inserted sheets equal the model's.",
+                  "get_sheet_collection_mut() is not followed by the ids (C06_defined_names_insert_front_fails). Appending a sheet (new_sheet / add_sheet) keeps Stable exactly when no workbook-level name's first area names the new title and the new sheet's names "
+                  "are scoped to it (C06_defined_names_append_sheet_stable; the hypothesis is needed: _append_sheet_needs_hyp), so the round trip holds after any history of appends and removals (C06_defined_names_after_history). The sheet of the first area is "
+                  "derived from the address TEXT by the set_address model (firstAreaSheet, Umya/Model/AnnotNamesText.lean): for a printed list of AreaOK areas it is the first area's sheet (C06_defined_names_first_area), for a text is_address rejects there is none "
+                  "(C06_defined_names_first_area_text), and the round trip is restated for the reader that works from the (name, localSheetId, text) elements alone (C06_defined_names_rehome_roundtrip_text). Tie on every run (`c06 nm`): the real <definedName> elements in order and the reloaded homes of 6 witnesses + 300 generated books after histories of remove_sheet / appended / inserted sheets equal the model's.",
     "level_note": "Trusted: Lean kernel + 3 standard axioms; the hand model's faithfulness as exercised by the correspondence stream; quick-xml 0.37.5 escape / unescape / "
                   "trim_text / event splitting (modelled); fancy_regex on the is_address regex (hand matcher, tied behaviourally through the dnr lines); the harness dump "
                   "functions (annot_entries) and the zip crate. The *_unfixed_*_fails refutations concern a model of the code BEFORE the fixes, which no longer runs; it was "
@@ -70,7 +73,10 @@ PROP = {
                         "C06_defined_names_unstable_moves", "C06_defined_names_remove_sheet_stable", "C06_defined_names_remove_sheet_keeps",
                         "C06_defined_names_after_remove_sheet", "C06_defined_names_after_removals",
                         "C06_defined_names_after_remove_sheet_unfixed_fails", "C06_defined_names_after_remove_sheet_unfixed_panics",
-                        "C06_defined_names_insert_front_fails"],
+                        "C06_defined_names_insert_front_fails",
+                        # appended sheets, histories, first area from the address text (Umya/Thm/C06NamesHist.lean)
+                        "C06_defined_names_append_sheet_stable", "C06_defined_names_append_sheet_needs_hyp", "C06_defined_names_after_history",
+                        "C06_defined_names_first_area", "C06_defined_names_first_area_text", "C06_defined_names_rehome_roundtrip_text"],
     "rule": "case = one workbook: 8 fixed witnesses (the repaired defects + the residual ones), N workbooks generated from a per-case seed by wb::gen_book with rich "
             "annotations (1-6 sheets, 0..40 hyperlinks with tooltips / location links to quoted sheets, 0..30 comments over a pool of authors incl. the empty one, 0..36 merges, "
             "0..14 data validations, 0..12 conditional formats x 1-3 rules, auto filter, tab colour argb/theme/indexed, panes + selections, page setup / margins / print options, "
@@ -147,11 +153,11 @@ PROP = {
         "C06_comment_join_by_cell assumes distinct comment cells and note shapes that name exactly the comments' cells; a loaded part with two note shapes naming one cell, or a note shape naming a cell without "
         "a comment next to shapes that do name cells, is joined as the code does (last shape wins / position) without a theorem saying that is what the producer meant",
         "auto filter: the struct holds the range only (C06_auto_filter_codec, C06_merge_roundtrip, `c06 range` lines); filter columns / criteria / sort state of a loaded file are not held by the library and are dropped on re-save (not a round-trip matter for values set through the API; C04 / C03 territory for loaded files)",
-        "re-homing of defined names is modelled and proved (Umya/Thm/C06Names.lean) with the address text OPAQUE: `first` (the sheet of the first area) is taken as a field of the name; that it is a function of the written text which the "
-        "text codec preserves is C06_defined_name_roundtrip, not re-proved here. The exact round trip is for Stable books; for other books only the filter characterisation (names move to the list the reader chooses, none lost) is proved. "
+        "re-homing of defined names is modelled and proved (Umya/Thm/C06Names.lean, C06NamesHist.lean); the sheet of the first area is derived from the address text (firstAreaSheet = the set_address model; C06_defined_names_rehome_roundtrip_text) at the level of the "
+        "unescaped text - the XML text channel (escape, trim) is C06_defined_name_channel, not composed here; a text on which set_address panics makes DNT.parse fail (no such text is printed by the library: C06_defined_name_roundtrip / _text_kept). The exact round trip is for Stable books; for other books only the filter characterisation (names move to the list the reader chooses, none lost) is proved. "
         "The reader panics on a localSheetId that indexes no sheet (reachable through the API by giving a workbook-level name such an id, or by a foreign file): modelled as panic and proved, not repaired",
         "sheets inserted in front of scoped names (only possible through get_sheet_collection_mut(); new_sheet / add_sheet append) leave stale localSheetIds: refuted by C06_defined_names_insert_front_fails, tied, harness oracle relaxed to "
-        "`no name lost` for such histories; a theorem that appending a sheet keeps Stable is not stated (it needs: no workbook-level name's first area names the new title)",
+        "`no name lost` for such histories; appended sheets are proved (C06_defined_names_append_sheet_stable, C06_defined_names_after_history) under AppendOK, which is a hypothesis on each appended sheet, not something the API enforces",
         "remove_sheet_by_name goes through remove_sheet (same fix); Worksheet::set_name re-pointing names and the hidden attribute are outside the names model (hidden: C06_defined_name_attrs)",
         "Worksheet::set_active_cell is not saved at all (known finding)",
     ],
